@@ -49,12 +49,31 @@ class C10(Prop):
         ctx, t = case.ctx, case.t
         if sorted(order) != sorted(case.led.webentities().get(w, [])):
             return
+        # before ANY other read: one complete chain per switch setting with k=1, so that pagination is the first request to
+        # touch the stores after the preceding write (whatever that write left in the file buffers)
+        first = {}
+        for ii, io in ((True, False), (False, True), (True, True)):
+            acc = Counter()
+            tok = None
+            for _ in range(len(case.led.pages) + 3):
+                r = case.call("paginate_webentity_pagelinks (first request after a write)", t.paginate_webentity_pagelinks, w,
+                              ob.args(order), include_internal=ii, include_outbound=io, source_page_count=1,
+                              pagination_token=tok, _passthrough=(RecursionError,))
+                for a_, b_, c_ in r["pagelinks"]:
+                    acc[(bytes(a_), bytes(b_), c_)] += 1
+                if r["done"]:
+                    break
+                tok = r["token"]
+            first[(ii, io)] = acc
         pg, R, P = ob.resolution_of_pages(case)
         mine = [p for p in pg if R[p] == w]
         for ii, io in ((True, False), (False, True), (True, True)):
             ref = case.call("get_webentity_pagelinks", t.get_webentity_pagelinks, w, list(order),
                             include_inbound=False, include_internal=ii, include_outbound=io)
             ref = Counter((bytes(a), bytes(b), c) for a, b, c in ref)
+            if first[(ii, io)] != ref:
+                ctx.fail("links", "internal=%r outbound=%r: paging (k=1) as the first request after the last write returns %r too often / not in the unpaginated answer, misses %r"
+                         % (ii, io, sorted((first[(ii, io)] - ref).items())[:3], sorted((ref - first[(ii, io)]).items())[:3]), case)
             sources = set(a for a, b, c in ref)
             n = len(sources)
             linkless = [p for p in mine if p not in sources]
